@@ -1139,6 +1139,14 @@ class Gen:
                 tgt = r.choice(LOCAL_POOL) if r.random() < 0.75 or not vs else r.choice(vs)
                 if r.random() < 0.03:
                     tgt = "K1"  # a local that shadows a module constant
+                if r.random() < 0.08 and vs:
+                    # chained assignment: every target is (re-)bound, names bound before among them, in any position
+                    tgts = [tgt] + r.sample(vs, min(len(vs), r.choice([1, 1, 2])))
+                    r.shuffle(tgts)
+                    tgts = list(dict.fromkeys(tgts))
+                    lines.append(f"{pad}{' = '.join(tgts)} = {self.arith(vs, 2)}")
+                    vs += [t for t in tgts if t not in vs]
+                    continue
                 lines.append(f"{pad}{tgt} = {self.arith(vs, 2)}")
                 if tgt not in vs:
                     vs.append(tgt)
@@ -1366,6 +1374,19 @@ def t_chain(x):
     y = x
     z = y = 2 * x
     return y
+
+
+def t_chain_first(x):
+    z = x
+    z = y = 2 * x
+    return z + y
+
+
+def t_chain_rebind3(x, y):
+    a = x
+    b = y
+    a = c = b = x * y + 1
+    return a + 2 * b + 4 * c
 
 
 def t_chain3(x, y):
